@@ -652,6 +652,25 @@ Fixpoint no_unit_slice (e : expr) : bool :=
   | Call _ args => (fix all (l : list expr) : bool := match l with [] => true | a :: r => no_unit_slice a && all r end) args
   end.
 Definition guard_unit_slice (s : str) : bool := match parse s with Some e => no_unit_slice e | None => true end.
+(* F7 (Fortran backend): a variable-free sub-expression that is not a literal and whose value is not an integer (1/8, 7/2, 2^-3):
+   sympy prints it as a quotient of integer literals, which Fortran divides as integers *)
+Fixpoint closed (e : expr) : bool :=
+  match e with
+  | Num _ _ => true
+  | Var _ | Call _ _ => false
+  | Neg a => closed a
+  | Add a b | Sub a b | Mul a b | Div a b | Pow a b => closed a && closed b
+  end.
+Definition is_integer (q : option Qc) : bool :=
+  match q with Some x => match Qden (this x) with 1%positive => true | _ => false end | None => true end.
+Fixpoint no_const_fraction (e : expr) : bool :=
+  match e with
+  | Num _ _ | Var _ | Call _ _ => true
+  | Neg a => if closed e then is_integer (eval (mkctx [] [] [] 0) e) else no_const_fraction a
+  | Add a b | Sub a b | Mul a b | Div a b | Pow a b =>
+      if closed e then is_integer (eval (mkctx [] [] [] 0) e) else no_const_fraction a && no_const_fraction b
+  end.
+Definition guard_const_fraction (s : str) : bool := match parse s with Some e => no_const_fraction e | None => true end.
 Definition guard_divisor (s : str) : bool := match parse s with Some e => no_call_in_divisor e | None => true end.
 Definition guard_chain (dup s : str) : bool := match parse s with Some e => no_label_chain dup e | None => true end.
 
